@@ -128,3 +128,12 @@ def save_replay(ctx, name, obj):
     else:
         json.dump(obj, open(p, "w"), indent=1, default=str)
     return p
+
+
+def copy_lockfile(dst_dir):
+    """pin the dependency versions of a helper crate to the workspace's Cargo.lock (ignored by git: a bare worktree of the
+    repository has none until cargo has run there; fall back to /repo's, which lists the same dependencies)"""
+    for src in (os.path.join(REPO, "Cargo.lock"), "/repo/Cargo.lock"):
+        if os.path.exists(src):
+            shutil.copy(src, os.path.join(dst_dir, "Cargo.lock")); return True
+    return False
